@@ -428,8 +428,10 @@ End WithHash.
 Record response := mkResp { r_params : dict; r_idt : option token }.
 
 Definition verified_name (c : pystr) : pystr := (verified_prefix ++ c)%list.
-Definition strip_verified (d : dict) : dict :=
-  fold_left (fun acc c => adel (verified_name c) acc) claims_with_verified d.
+(* clear_verified_claims: del msg["__verified_<claim>"] for the listed claims (keys of a dict are unique) *)
+Definition is_verified_name (k : pystr) : bool :=
+  existsb (fun c => str_eqb k (verified_name c)) claims_with_verified.
+Definition strip_verified (d : dict) : dict := filter (fun kv => negb (is_verified_name (fst kv))) d.
 
 Definition opt_param (d : dict) (k : pystr) : res (option pystr) :=
   match assoc k d with
